@@ -217,6 +217,86 @@ def roles_cases(rp, ctx):
                    'pilot): every forwarded message is delivered once on every other side, local ones stay (%d runs)' % n, 'tie', True, '')
 
 
+def run_proxy_monitor(rp, script):
+    """the real Proxy._monitor (the thread that ends the channels of sessions whose heartbeats stopped) and the real
+    Proxy._heartbeat on a virtual clock: one pass per `time.sleep`; `script` lists per pass what the sessions do before it:
+    ['reg', sid] (a session registers - its channels come up), ['hb', sid] (heartbeat request), ['skip', seconds] (time
+    goes by).  Returns per registration (sid, generation) whether its channels were ended and after which pass."""
+    import threading as mt
+    import radical.pilot.proxy as pmod
+    clock = {'now': 1000.0, 'pass': 0}
+    ended = {}            # (sid, generation) -> pass at which the channels were ended
+    gen = {}
+    px = object.__new__(pmod.Proxy)
+    px._lock, px._term, px._clients, px._log = mt.Lock(), mt.Event(), dict(), rpload.NullLog()
+    class Term(object):
+        def __init__(self, key): self.key = key
+        def set(self): ended.setdefault(self.key, clock['pass'])
+        def is_set(self): return self.key in ended
+    class Proc(object):
+        def join(self, *a, **k): pass
+    def act(a):
+        if a[0] == 'reg':
+            gen[a[1]] = gen.get(a[1], 0) + 1
+            px._clients[a[1]] = {'hb': clock['now'], 'term': Term((a[1], gen[a[1]])), 'proc': Proc()}
+        elif a[0] == 'hb':
+            px._heartbeat({'sid': a[1]})
+        elif a[0] == 'skip':
+            clock['now'] += a[1]
+    class Time(object):
+        def time(self): return clock['now']
+        def sleep(self, s):
+            # one pass of the monitor per call: what the sessions do before it
+            k = clock['pass']
+            if k >= len(script):
+                px._term.set(); return
+            for a in script[k]: act(a)
+            clock['now'] += s
+            clock['pass'] += 1
+    saved = pmod.time
+    pmod.time = Time()
+    err = None
+    try:
+        px._monitor()
+    except Exception as e:
+        err = type(e).__name__
+    finally:
+        pmod.time = saved
+    return {'ended': sorted([list(k) + [v] for k, v in ended.items()]), 'alive': sorted(px._clients), 'err': err}
+
+
+def proxy_monitor_cases(rp, ctx):
+    import radical.pilot.proxy as pmod
+    T = pmod._TIMEOUT
+    n = 0
+    for late in (False, True):
+        for bystander in (False, True):
+            for quiet_passes in (1, 3):
+                # session A registers, stops sending heartbeats and is ended; the same session id registers again (a
+                # restarted client, a second pilot manager of a session id re-used) and sends its heartbeats: it stays
+                script  = [[['reg', 'A']] + ([['reg', 'B']] if bystander else [])]
+                script += [[['skip', T + 10]] + ([['hb', 'B']] if bystander else [])]
+                script += [[['hb', 'B']] if bystander else [] for _ in range(quiet_passes)]
+                script += [[['reg', 'A'], ['hb', 'A']] + ([['hb', 'B']] if bystander else [])]
+                script += [[['hb', 'A']] + ([['hb', 'B']] if bystander else []) for _ in range(4)]
+                if late: script += [[['skip', T // 2], ['hb', 'A']] + ([['hb', 'B']] if bystander else [])]
+                script += [[] for _ in range(2)]
+                r = run_proxy_monitor(rp, script)
+                n += 1
+                ctx.case({'proxy_monitor': script}, nontrivial=True)
+                inp = {'kind': 'proxy_monitor', 'script': script}
+                ended = {(e[0], e[1]) for e in r['ended']}
+                if r['err']:
+                    ctx.fail('proxy:monitor-raises', r['err'], inp)
+                elif ('A', 1) not in ended:
+                    ctx.fail('proxy:silent-session-keeps-its-channels', 'session A sent no heartbeat for longer than the timeout: %s' % r, inp)
+                elif ('A', 2) in ended or ('B', 1) in ended or 'A' not in r['alive']:
+                    ctx.fail('proxy:channels-of-a-live-session-ended',
+                             'a session that sends its heartbeats lost its channels (every forwarded message is then delivered 0 times): %s' % r, inp)
+    ctx.obligation('real Proxy._monitor / _heartbeat on a virtual clock: the channels of a session end when its heartbeats stop, a session id '
+                   'that registers again and sends heartbeats keeps its channels, as does a bystander (%d histories)' % n, 'tie', True, '')
+
+
 # side names: pilot uids are user-definable, so names may contain each other
 NAMES = ['client', 'pilot.1', 'pilot.10', 'pilot.100', 'pilot', 'pilot.1.a', 'p', 'client.pilot.1', 'lot.1']
 
@@ -624,6 +704,7 @@ def run(ctx):
                    'goes live is delivered exactly once (2..%d sides)' % nmax, 'tie', True, '')
     close_cases(rp, ctx)
     roles_cases(rp, ctx)
+    proxy_monitor_cases(rp, ctx)
     # message sequences: forwarders are stateless -> each message behaves as if alone
     rng = ctx.rng
     for _ in range(ctx.n(100, 2000)):
@@ -704,6 +785,11 @@ def replay(ctx, data):
         return replay_join(ctx, data)
     rp = rpload.load()
     i = data['input']
+    if i.get('kind') == 'proxy_monitor':
+        r = run_proxy_monitor(rp, i['script'])
+        print(r)
+        ended = {(e[0], e[1]) for e in r['ended']}
+        return not r['err'] and ('A', 1) in ended and ('A', 2) not in ended and ('B', 1) not in ended and 'A' in r['alive']
     if i.get('kind') == 'roles':
         msg = {'origin': None, 'fwd': i['fwd'], 'body': 7}
         got, quiet, errs = run_publish_roles(rp, 3, {int(k): v for k, v in i['subagents'].items()}, i['side'], msg, i['channel'])
